@@ -39,8 +39,10 @@ type loc struct {
 	i int
 }
 
-// Run returns (witness, examinedEdges). witness == "" means the cut holds.
-func (q *Cut) Run(c *Ctx) (string, int) {
+// runInsensitive is the path-insensitive search (every CFG path, feasible or
+// not). It is the fallback of Run when the path-sensitive state space exceeds
+// its budget: it can only report more, never less.
+func (q *Cut) runInsensitive(c *Ctx) (string, int) {
 	type item = cutItem
 	fromSet := map[ssa.Instruction]bool{}
 	for _, f := range q.From {
@@ -233,103 +235,304 @@ func instrPos(in ssa.Instruction) token.Pos {
 	return in.Parent().Pos()
 }
 
-// RunPhiSensitive is the E1b variant of Run: along each path the truth value
-// of boolean phis is tracked (a phi takes the constant, or the tracked value
-// of the phi, that flows in over the edge the path took) and an If on a phi
-// whose value is known follows only the consistent edge. Used for flags that
-// are set on the path and tested later (`changed = true ... if changed {..}`).
-func (q *Cut) RunPhiSensitive(c *Ctx) (string, int) {
-	type env map[*ssa.Phi]bool
-	sig := func(e env) string {
-		var ks []string
-		for p, v := range e {
-			ks = append(ks, fmt.Sprintf("%s=%v", p.Name(), v))
+// RunPhiSensitive is kept for its callers; Run is path-sensitive itself.
+func (q *Cut) RunPhiSensitive(c *Ctx) (string, int) { return q.Run(c) }
+
+// trackedConds: per function, the boolean values worth remembering along a
+// path: conditions tested by more than one If (an SSA value is immutable, so
+// it has the same truth at both), boolean phis that are tested, and the phis
+// feeding them.
+type condInfo struct {
+	multi map[ssa.Value]bool // bases tested by >= 2 Ifs
+	phis  map[*ssa.Phi]bool  // bool phis tested by an If, or feeding one
+}
+
+var condInfoMemo = map[*ssa.Function]*condInfo{}
+
+func condInfoOf(f *ssa.Function) *condInfo {
+	if ci, ok := condInfoMemo[f]; ok {
+		return ci
+	}
+	ci := &condInfo{multi: map[ssa.Value]bool{}, phis: map[*ssa.Phi]bool{}}
+	count := map[ssa.Value]int{}
+	var addPhi func(p *ssa.Phi)
+	addPhi = func(p *ssa.Phi) {
+		if ci.phis[p] {
+			return
 		}
-		sortStrings(ks)
-		return strings.Join(ks, ",")
+		ci.phis[p] = true
+		for _, e := range p.Edges {
+			if q, ok := e.(*ssa.Phi); ok {
+				addPhi(q)
+			}
+		}
+	}
+	for _, b := range f.Blocks {
+		i := ifOf(b)
+		if i == nil {
+			continue
+		}
+		base, _ := stripNot(i.Cond)
+		count[base]++
+		if p, ok := base.(*ssa.Phi); ok {
+			addPhi(p)
+		}
+	}
+	for v, n := range count {
+		if n >= 2 {
+			ci.multi[v] = true
+		}
+	}
+	// operands of tracked phis that are themselves conditions elsewhere
+	for p := range ci.phis {
+		for _, e := range p.Edges {
+			eb, _ := stripNot(e)
+			if count[eb] >= 1 {
+				ci.multi[eb] = true
+			}
+		}
+	}
+	condInfoMemo[f] = ci
+	return ci
+}
+
+type psEnv struct {
+	known map[ssa.Value]bool
+	phiOp map[*ssa.Phi]ssa.Value
+}
+
+func (e psEnv) clone() psEnv {
+	n := psEnv{known: make(map[ssa.Value]bool, len(e.known)), phiOp: make(map[*ssa.Phi]ssa.Value, len(e.phiOp))}
+	for k, v := range e.known {
+		n.known[k] = v
+	}
+	for k, v := range e.phiOp {
+		n.phiOp[k] = v
+	}
+	return n
+}
+
+func (e psEnv) sig() string {
+	var ks []string
+	for k, v := range e.known {
+		ks = append(ks, fmt.Sprintf("%s=%v", k.Name(), v))
+	}
+	for k, v := range e.phiOp {
+		ks = append(ks, fmt.Sprintf("%s:%s", k.Name(), v.Name()))
+	}
+	sortStrings(ks)
+	return strings.Join(ks, ",")
+}
+
+// Run returns (witness, examinedEdges). witness == "" means the cut holds.
+//
+// The search is path-sensitive in three cheap ways, all consequences of SSA
+// values being immutable: (1) a condition value tested by two Ifs has the
+// same outcome at both; (2) a boolean phi carries, on a given path, the
+// operand of the edge the path came over — an If on the phi is then an If on
+// that operand: constant operands fix the branch, a comparison operand lets
+// the edge predicates (guards) be evaluated on the comparison itself; (3)
+// Assume fixes values up front. When the state space exceeds the budget the
+// path-insensitive search decides (it explores a superset of the paths).
+func (q *Cut) Run(c *Ctx) (string, int) {
+	if len(q.Fn.Blocks) == 0 {
+		return "", 0
+	}
+	ci := condInfoOf(q.Fn)
+	if len(ci.multi) == 0 && len(ci.phis) == 0 {
+		return q.runInsensitive(c)
 	}
 	type item struct {
 		l    loc
-		e    env
-		prev *item
+		e    psEnv
+		prev *cutItem
+	}
+	fromSet := map[ssa.Instruction]bool{}
+	for _, f := range q.From {
+		fromSet[f] = true
 	}
 	var work []*item
 	seen := map[string]bool{}
-	push := func(b *ssa.BasicBlock, i int, e env, prev *item) {
-		k := fmt.Sprintf("%d|%d|%s", b.Index, i, sig(e))
+	budget := 60000
+	overflow := false
+	push := func(b *ssa.BasicBlock, i int, e psEnv, prev *cutItem) {
+		k := fmt.Sprintf("%d|%d|%s", b.Index, i, e.sig())
 		if seen[k] {
 			return
 		}
+		if len(seen) > budget {
+			overflow = true
+			return
+		}
 		seen[k] = true
-		work = append(work, &item{loc{b, i}, e, prev})
+		work = append(work, &item{loc{b, i}, e, &cutItem{l: loc{b, i}, prev: prev}})
 	}
-	if len(q.From) == 0 && len(q.FromEdges) == 0 {
-		push(q.Fn.Blocks[0], 0, env{}, nil)
+	// truth of a boolean value on the current path
+	var truth func(v ssa.Value, e psEnv, d int) (bool, bool)
+	truth = func(v ssa.Value, e psEnv, d int) (bool, bool) {
+		if d > 6 {
+			return false, false
+		}
+		base, neg := stripNot(v)
+		if b, ok := constBool(base); ok {
+			return b != neg, true
+		}
+		if t, ok := q.Assume[base]; ok {
+			return t != neg, true
+		}
+		if t, ok := e.known[base]; ok {
+			return t != neg, true
+		}
+		if p, ok := base.(*ssa.Phi); ok {
+			if op, ok := e.phiOp[p]; ok && op != ssa.Value(p) {
+				if t, ok := truth(op, e, d+1); ok {
+					return t != neg, true
+				}
+			}
+		}
+		return false, false
 	}
-	for _, f := range q.From {
-		push(f.Block(), instrIndex(f)+1, env{}, nil)
+	learn := func(e psEnv, v ssa.Value, t bool) {
+		base, neg := stripNot(v)
+		t = t != neg
+		if ci.multi[base] {
+			e.known[base] = t
+		}
+		if p, ok := base.(*ssa.Phi); ok {
+			if op, ok := e.phiOp[p]; ok && op != ssa.Value(p) {
+				ob, oneg := stripNot(op)
+				if _, isC := ob.(*ssa.Const); !isC && ci.multi[ob] {
+					e.known[ob] = t != oneg
+				}
+			}
+		}
 	}
-	enter := func(from *ssa.BasicBlock, to *ssa.BasicBlock, e env) env {
+	enter := func(from, to *ssa.BasicBlock, e psEnv) psEnv {
 		idx := -1
 		for i, p := range to.Preds {
 			if p == from {
 				idx = i
 			}
 		}
-		ne := env{}
-		for k, v := range e {
-			ne[k] = v
-		}
+		var upd map[*ssa.Phi]ssa.Value
 		for _, in := range to.Instrs {
 			p, ok := in.(*ssa.Phi)
 			if !ok {
 				break
 			}
-			if idx < 0 || idx >= len(p.Edges) {
+			if !ci.phis[p] || idx < 0 || idx >= len(p.Edges) {
 				continue
 			}
-			switch x := p.Edges[idx].(type) {
-			case *ssa.Const:
-				if b, isB := constBool(x); isB {
-					ne[p] = b
-				} else {
-					delete(ne, p)
+			op := p.Edges[idx]
+			if qphi, isPhi := op.(*ssa.Phi); isPhi {
+				if r, ok := e.phiOp[qphi]; ok {
+					op = r
 				}
-			case *ssa.Phi:
-				if v, known := e[x]; known {
-					ne[p] = v
-				} else {
-					delete(ne, p)
-				}
-			default:
-				delete(ne, p)
 			}
+			if upd == nil {
+				upd = map[*ssa.Phi]ssa.Value{}
+			}
+			upd[p] = op
+		}
+		if upd == nil {
+			return e
+		}
+		ne := e.clone()
+		for p, op := range upd {
+			ne.phiOp[p] = op
 		}
 		return ne
 	}
+	// evaluate an edge predicate, also on the operand a phi condition stands for
+	evalEdge := func(pred EdgePred, b *ssa.BasicBlock, s int, e psEnv) bool {
+		if pred == nil {
+			return false
+		}
+		if pred(b, s) {
+			return true
+		}
+		i := ifOf(b)
+		if i == nil {
+			return false
+		}
+		base, neg := stripNot(i.Cond)
+		p, ok := base.(*ssa.Phi)
+		if !ok {
+			return false
+		}
+		op, ok := e.phiOp[p]
+		if !ok || op == ssa.Value(p) {
+			return false
+		}
+		if _, isC := op.(*ssa.Const); isC {
+			return false
+		}
+		if _, isPhi := op.(*ssa.Phi); isPhi {
+			return false
+		}
+		s2 := s
+		if neg {
+			s2 = 1 - s
+		}
+		condOverride[b] = op
+		r := pred(b, s2)
+		delete(condOverride, b)
+		return r
+	}
+	start := psEnv{known: map[ssa.Value]bool{}, phiOp: map[*ssa.Phi]ssa.Value{}}
+	if len(q.From) == 0 && len(q.FromEdges) == 0 {
+		push(q.Fn.Blocks[0], 0, start, nil)
+	}
+	for _, f := range q.From {
+		push(f.Block(), instrIndex(f)+1, start.clone(), nil)
+	}
 	for _, fe := range q.FromEdges {
 		t := fe.B.Succs[fe.Succ]
-		push(t, 0, enter(fe.B, t, env{}), nil)
+		e := start.clone()
+		if i := ifOf(fe.B); i != nil {
+			learn(e, i.Cond, fe.Succ == 0)
+		}
+		push(t, 0, enter(fe.B, t, e), nil)
 	}
 	examined := 0
-	for len(work) > 0 {
+	for len(work) > 0 && !overflow {
 		it := work[0]
 		work = work[1:]
 		b := it.l.b
 		stopped := false
 		for i := it.l.i; i < len(b.Instrs); i++ {
 			in := b.Instrs[i]
+			// a value that is computed again (loop iteration) is a new run-time value: forget the old one
+			if v, isV := in.(ssa.Value); isV {
+				_, k := it.e.known[v]
+				stale := k
+				for _, op := range it.e.phiOp {
+					if op == v {
+						stale = true
+					}
+				}
+				if stale {
+					ne := it.e.clone()
+					delete(ne.known, v)
+					for p, op := range ne.phiOp {
+						if op == v {
+							delete(ne.phiOp, p)
+						}
+					}
+					it.e = ne
+				}
+			}
 			if q.Target != nil && q.Target(in) {
-				var parts []string
-				for p := it; p != nil; p = p.prev {
-					parts = append([]string{fmt.Sprintf("b%d", p.l.b.Index)}, parts...)
-				}
-				if len(parts) > 14 {
-					parts = append(append(parts[:6:6], "…"), parts[len(parts)-6:]...)
-				}
-				return fmt.Sprintf("%s reaches `%s` at %s via %s", q.startDesc(), describeInstr(in), c.Pos(instrPos(in)), strings.Join(parts, "→")), examined
+				return q.witness(c, it.prev, in), examined
 			}
 			if q.Sep != nil && q.Sep(in) {
+				if os.Getenv("LP2P_DEBUG_CUT") == fnKey(q.Fn) {
+					fmt.Printf("CUT sep at b%d: %s\n", b.Index, describeInstr(in))
+				}
+				stopped = true
+				break
+			}
+			if q.StopAtFrom && fromSet[in] {
 				stopped = true
 				break
 			}
@@ -337,27 +540,37 @@ func (q *Cut) RunPhiSensitive(c *Ctx) (string, int) {
 		if stopped {
 			continue
 		}
+		ifi := ifOf(b)
 		for s, succ := range b.Succs {
 			examined++
-			if q.EdgeCut != nil && q.EdgeCut(b, s) {
-				continue
-			}
-			if q.contradicts(b, s) {
-				continue
-			}
-			if i := ifOf(b); i != nil {
-				base, neg := stripNot(i.Cond)
-				if p, ok := base.(*ssa.Phi); ok {
-					if v, known := it.e[p]; known {
-						taken := (s == 0) != neg
-						if taken != v {
-							continue
-						}
-					}
+			if ifi != nil {
+				if t, ok := truth(ifi.Cond, it.e, 0); ok && t != (s == 0) {
+					continue // infeasible on this path
 				}
 			}
-			push(succ, 0, enter(b, succ, it.e), it)
+			if evalEdge(q.EdgeCut, b, s, it.e) {
+				if os.Getenv("LP2P_DEBUG_CUT") == fnKey(q.Fn) {
+					fmt.Printf("CUT edge b%d->b%d removed\n", b.Index, succ.Index)
+				}
+				continue
+			}
+			if evalEdge(q.TargetEdge, b, s, it.e) {
+				return q.witnessEdge(c, it.prev, b, s), examined
+			}
+			ne := it.e
+			if ifi != nil {
+				base, _ := stripNot(ifi.Cond)
+				_, isPhi := base.(*ssa.Phi)
+				if ci.multi[base] || isPhi {
+					ne = it.e.clone()
+					learn(ne, ifi.Cond, s == 0)
+				}
+			}
+			push(succ, 0, enter(b, succ, ne), it.prev)
 		}
+	}
+	if overflow {
+		return q.runInsensitive(c)
 	}
 	return "", examined
 }
